@@ -1126,6 +1126,14 @@ def c06_history(case):
     finally:
         reset_table()
 
+
+
+def tv_batch(case):
+    reset_table()
+    r = judge.run_corpus(sf.decoder, sf.encoder, sf.DecoderError, sf.EncoderError, case["selfies"], case["smiles"])
+    reset_table()
+    return {"violation": False, "results": r, "detail": ""}
+
 # ---------------------------------------------------------------------------
 
 KINDS = {
@@ -1157,6 +1165,7 @@ KINDS = {
     "deriv": c02_deriv,
     "writer_graph": c01_writer_graph,
     "strict_history": c06_history,
+    "tv_batch": tv_batch,
     "state_fn": lemma_state_fn,
     "ring_step": lemma_ring_step,
 }
